@@ -273,7 +273,10 @@ func runC20(c *Ctx) {
 		}
 		c.Check(FuncKey(unc)+"::Load-receives-options", unc.Pos(), passed, "loader.Load is called with the options carrying the runner's Go version")
 		// Load hands its options to the program that loadFromSource reads
-		link(load, "program.options←opts", "loader.program", "options", func(v ssa.Value) bool { p, ok := v.(*ssa.Parameter); return ok && strings.HasSuffix(p.Type().String(), "loader.Options") }, "Load stores its options in the program")
+		link(load, "program.options←opts", "loader.program", "options", func(v ssa.Value) bool {
+			p, ok := v.(*ssa.Parameter)
+			return ok && strings.HasSuffix(p.Type().String(), "loader.Options")
+		}, "Load stores its options in the program")
 		// types.Config.GoVersion
 		vals := storedToField(lfs, "types.Config", "GoVersion")
 		fromFlag, fromModule := false, false
